@@ -706,6 +706,25 @@ pub fn gen_config(r: &mut Rng, lans: &[Lan], clients: &[ClientSpec], allow_polic
             let at = k.below(outer.policies.len() as u64 + 1) as usize;
             outer.policies.insert(at, sub);
         }
+        /* match-subnet written as a supernet of the LAN, with host bits set, as the server's
+         * /32, or as a neighbouring network (which matches nobody on this LAN) */
+        for lan in lans.iter() {
+            let net = Ipv4Addr::from(lan.network());
+            for p in policies.iter_mut().filter(|p| p.match_subnet == Some((net, lan.plen))) {
+                if !k.chance(0.25) {
+                    continue;
+                }
+                /* (erbium rejects a match-subnet with host bits set, so every form is a network) */
+                p.match_subnet = Some(match k.below(4) {
+                    0 | 1 => {
+                        let l = lan.plen.saturating_sub(k.range(1, 8) as u8).max(8);
+                        (Ipv4Addr::from(lan.network() & mask(l)), l)
+                    }
+                    2 => (lan.server_ip, 32),
+                    _ => (Ipv4Addr::from(lan.network().wrapping_add(1u32 << (32 - lan.plen as u32))), lan.plen),
+                });
+            }
+        }
     }
     ConfModel {
         addresses,
@@ -1129,7 +1148,8 @@ pub fn generate(seed: u64, opts: &GenOpts) -> PlanA {
         let reserved = Ipv4Addr::from(*r.pick(&hs));
         for c in configs.iter_mut() {
             c.addresses.retain(|(a, l)| u32::from(*a) & mask(*l) != lan0.network());
-            c.policies.retain(|p| p.match_subnet.map(|(n, l)| u32::from(n) & mask(l) != lan0.network()).unwrap_or(true));
+            /* nothing else may match on this LAN (match-subnet may be written as a supernet) */
+            c.policies.retain(|p| p.match_subnet.map(|(n, l)| u32::from(n) & mask(l) != u32::from(lan0.server_ip) & mask(l)).unwrap_or(true));
             c.addresses.push((Ipv4Addr::from(lan0.network()), lan0.plen));
             c.policies.push(PolicyM {
                 match_subnet: Some((Ipv4Addr::from(lan0.network()), lan0.plen)),
